@@ -38,9 +38,13 @@ type grant struct {
 }
 
 func restartPart(r *runner.Run, t *testing.T) {
-	ops := []string{"deq1", "deq2", "ack", "nack", "restart", "tick"}
-	depth := runner.Pick(r, 4, 5)
-	dir := filepath.Join(runner.Scratch(), "c03-restart")
+	pullFamily(r, t, "restart", []string{"deq1", "deq2", "ack", "nack", "restart", "tick"}, runner.Pick(r, 4, 5))
+	// extensions acknowledged to the worker count: the lease runs as long as the API said, across restarts too
+	pullFamily(r, t, "extend", []string{"deq1", "ext", "tick", "tick2", "restart"}, runner.Pick(r, 5, 6))
+}
+
+func pullFamily(r *runner.Run, t *testing.T, family string, ops []string, depth int) {
+	dir := filepath.Join(runner.Scratch(), "c03-"+family)
 	deadline := time.Now().Add(runner.Pick(r, 40*time.Second, 6*time.Minute))
 	const ttl = 30 * time.Second
 	var hist []int
@@ -135,8 +139,21 @@ func restartPart(r *runner.Run, t *testing.T) {
 						why = fmt.Sprintf("step %d: the gateway did not start again: %v", step, err)
 						return
 					}
+				case "ext":
+					g := held()
+					if g == nil {
+						continue
+					}
+					code, _ := post("/e/extend", map[string]any{"lease_id": g.lease, "extend_by": "30s"})
+					if code != 204 {
+						why = fmt.Sprintf("step %d: extend of the unexpired lease %s of message %s answered %d, want 204", step, short(g.lease), g.id, code)
+						return
+					}
+					g.until = g.until.Add(ttl) // what the worker was told
 				case "tick":
 					time.Sleep(ttl + time.Second)
+				case "tick2":
+					time.Sleep(2*ttl + time.Second)
 				}
 			}
 		})
@@ -162,7 +179,7 @@ func restartPart(r *runner.Run, t *testing.T) {
 			}
 			// only histories that end in an observation are worth running (prefixes were run before)
 			last := ops[hist[len(hist)-1]]
-			if last != "restart" && last != "tick" {
+			if last != "restart" && last != "tick" && last != "tick2" {
 				n++
 				if why := runOne(); why != "" {
 					if strings.HasPrefix(why, "INFRA") {
@@ -171,7 +188,7 @@ func restartPart(r *runner.Run, t *testing.T) {
 						return
 					}
 					h := append([]int{}, hist...)
-					r.Violation("restart-exclusivity:"+last, fmt.Sprintf("[restart part] history [%s]: %s", histText(h), why),
+					r.Violation(family+"-exclusivity:"+last, fmt.Sprintf("[pull-level part, %s family] history [%s]: %s", family, histText(h), why),
 						map[string]any{"engine": "restart-histories", "history": histText(h)}, func() bool { return runOne() != "" })
 					return // do not extend a violating history
 				}
@@ -190,9 +207,9 @@ func restartPart(r *runner.Run, t *testing.T) {
 	r.Add("states", int64(n))
 	r.Add("transitions", int64(n))
 	r.Add("traces_validated_against_impl", int64(n))
-	r.Set("restart_part", map[string]any{"histories": n, "depth": depth, "operations": ops, "exhaustive": !capped})
+	r.Set("pull_level_part:"+family, map[string]any{"histories": n, "depth": depth, "operations": ops, "exhaustive": !capped})
 	if capped {
-		r.NotExhaustive("restart part: time budget reached")
+		r.NotExhaustive("pull-level part (" + family + "): time budget reached")
 	}
 }
 
